@@ -253,6 +253,7 @@ def explore(h, params, tier, seed, canary=False, known=(), stop_on_violation=Fal
     prefix = []
     funcs_seen = set()
     first_ctx = None
+    first_ok = False
     budget_s = budget_s or h.budget_s or (240 if tier == "quick" else 3000)
     qt = h.qtimeout_ms if tier == "quick" else max(h.qtimeout_ms, 60000)
     while True:
@@ -262,7 +263,7 @@ def explore(h, params, tier, seed, canary=False, known=(), stop_on_violation=Fal
         if time.time() - t0 > budget_s:
             res["notes"].append("time budget reached")
             break
-        profiling = first_ctx is None and not canary
+        profiling = res["paths"] == 0 and not canary and not funcs_seen
         if profiling:
             sys.setprofile(_profile_functions(funcs_seen))
         try:
@@ -271,8 +272,10 @@ def explore(h, params, tier, seed, canary=False, known=(), stop_on_violation=Fal
             if profiling:
                 sys.setprofile(None)
         ctx = out.ctx
-        if first_ctx is None:
+        if first_ctx is None or (not first_ok and out.status == "ok"):
+            # the self-test samples input vectors from the assumptions of the first COMPLETED path
             first_ctx = ctx
+            first_ok = out.status == "ok"
         if out.status == "infeasible":
             res["infeasible_paths"] += 1
         elif out.status == "abort":
@@ -310,6 +313,9 @@ def explore(h, params, tier, seed, canary=False, known=(), stop_on_violation=Fal
             if n not in res["notes"]:
                 res["notes"].append(n)
         if stop_on_violation and res["violations"]:
+            break
+        if len(res["violations"]) >= MAX_VIOLATIONS:
+            res["notes"].append("violation cap reached: exploration stopped")
             break
         prefix = _next_prefix(ctx.trace)
         if prefix is None:
@@ -420,6 +426,9 @@ def _cvc5_crosscheck(res, ctx, goal):
             pass
 
 
+MAX_VIOLATIONS = 4   # per harness instance: enough to report; keeps a broken tree from costing hours
+
+
 def _discharge(res, h, params, ctx, canary, known, replay_dir):
     nontriv = False
     for idx, ob in enumerate(ctx.obs):
@@ -434,6 +443,10 @@ def _discharge(res, h, params, ctx, canary, known, replay_dir):
             res["samples"].append(dict(harness=h.name, obligation=ob.name, negated_goal=_smt(z3.Not(f)),
                                        path_condition=[_smt(c) for c in ctx.pc[:12]]))
         extra = []
+        pinned_model = None
+        if len(res["violations"]) >= MAX_VIOLATIONS:
+            res["inconclusive"].append(ob.name + ": not examined (violation cap reached)")
+            continue
         if ob.kind == "close" and ob.exact_formula is not None:
             # exact identity first; it implies the tolerance form.  (i) rational-function normal form:
             # the expanded numerator of got-want is the zero polynomial; (ii) otherwise ask the solver.
@@ -443,7 +456,11 @@ def _discharge(res, h, params, ctx, canary, known, replay_dir):
                 res["discharged"] += 1
                 res["normalised_identities"] = res.get("normalised_identities", 0) + 1
                 continue
-            r0, _ = _query(ctx, ob.exact_formula, ())
+            pinned_model = None
+            if same is False and ob.margin_formula is not None:
+                # not an identity of rational functions: look for a counterexample cheaply before the hard queries
+                pinned_model = _pinned_search(ctx, z3.Not(ob.margin_formula), tries=4)
+            r0 = "skipped" if pinned_model is not None else _query(ctx, ob.exact_formula, ())[0]
             if r0 == "unsat":
                 res["discharged"] += 1
                 res["exact_identities"] = res.get("exact_identities", 0) + 1
@@ -454,7 +471,8 @@ def _discharge(res, h, params, ctx, canary, known, replay_dir):
         for _ in range(4):
             r = None
             if ob.kind == "close" and ob.margin_formula is not None and not extra:
-                m = _pinned_search(ctx, z3.Not(ob.margin_formula))
+                m = pinned_model if pinned_model is not None else _pinned_search(ctx, z3.Not(ob.margin_formula))
+                pinned_model = None
                 if m is not None:
                     r = "sat-pinned"
             if r is None:
@@ -561,7 +579,7 @@ def selftest(h, params, ctx0, seed, n=8):
     and the symbolic expressions built by the proxies, evaluated at the same inputs, must give the same
     numbers (validates proxies, shims and string model on exactly the code being claimed)."""
     rng = random.Random(seed * 7919 + hash(h.name) % 1000)
-    out = dict(vectors=0, rejected=0, compared=0, failures=[])
+    out = dict(vectors=0, rejected=0, compared=0, failures=[], violations=[])
     tries = 0
     while out["vectors"] < n and tries < 4 * n:
         tries += 1
@@ -581,16 +599,24 @@ def selftest(h, params, ctx0, seed, n=8):
         if rep.status == "exception" and isinstance(rep.exc, h.raises):
             out["rejected"] += 1
             continue
+        if rep.status == "exception":
+            # the real code raises on plain valid inputs where the property promises a result
+            out["violations"].append(dict(obligation="no-unexpected-exception", inputs=vals,
+                                          observed=repr(rep.exc)[:300], tb=rep.tb, found_by="plain-number self-test"))
+            out["vectors"] += 1
+            continue
         if rep.status != "ok":
             out["failures"].append("concrete run %s: %s %r inputs=%s" % (rep.status, rep.reason, rep.exc, vals))
-            out.setdefault("failed_obligations", []).append("no-unexpected-exception")
             out["vectors"] += 1
             continue
         out["vectors"] += 1
         bad = [(o.name, o.detail) for o in rep.ctx.obs if not o.ok]
         if bad:
-            out["failures"].append("oracle disagrees with real code on plain inputs %s: %s" % (vals, bad[:3]))
-            out.setdefault("failed_obligations", []).extend(b[0] for b in bad)
+            # an obligation fails on the real code with plain numbers: that IS a violation (the oracle is validated on
+            # the unchanged tree, where this never happens); reported with the inputs so it can be replayed
+            for name, detail in bad[:3]:
+                out["violations"].append(dict(obligation=name, inputs=vals, observed=repr(detail),
+                                              found_by="plain-number self-test"))
             continue
         # pinned symbolic run
         pins = dict(vals)
@@ -645,12 +671,12 @@ def run_instance(h, params, tier, seed, replay_dir):
         except Exception as e:
             res["selftest"] = dict(vectors=0, failures=["selftest crashed: %r" % (e,)])
         st = res["selftest"]
-        reported = {v["obligation"] for v in res["violations"]} | {v["obligation"] for v in res["known"]}
-        if st.get("failures") and reported and set(st.get("failed_obligations", ["?"])) <= reported:
-            # plain-number runs fail exactly where the solver found (and replayed) a violation: that is the
-            # violation showing again, not a harness error
-            st["failures_matching_violations"] = st.pop("failures")
-            st["failures"] = []
+        seen = {v["obligation"] for v in res["violations"]} | {v["obligation"] for v in res["known"]}
+        for v in st.pop("violations", []):
+            if v["obligation"] in seen:
+                continue        # the solver already found and replayed a violation of this obligation
+            seen.add(v["obligation"])
+            _record_violation(res, h, params, v, known, replay_dir)
     if h.canary:
         c = explore(h, params, tier, seed, canary=True, known=(), stop_on_violation=True,
                     budget_s=120 if tier == "quick" else 600)
